@@ -26,6 +26,36 @@ def pretend_opt(rng=None):
     return "--pretend-valid=" + ",".join("%s:%s" % (hexs(a), hexs(b)) for a, b in pairs)
 
 
+def inert_environment(rng):
+    """environment conditions a session must be indifferent to (used by the checks whose property is about the
+    execution state): history file trouble, entropy trouble, odd terminal sizes"""
+    k = rng.below(9)
+    if k == 0:
+        return [{"kind": "HIST_WRITE", "after": rng.range(0, 40), "errno": 28}]
+    if k == 1:
+        return [{"kind": "HIST_CLOSE", "errno": 5}]
+    if k == 2:
+        return [{"kind": "HIST_ABSENT"}]
+    if k == 3:
+        return [{"kind": "HIST_OPEN_A", "at": rng.below(6), "errno": rng.choice([13, 28, 24])}]
+    if k == 4:
+        return [{"kind": "HIST_OPEN_ALL", "errno": 30}]
+    if k == 5:
+        return [{"kind": "HIST_CONTENT", "content": rng.choice(["step\nstep\nrewind\n", "exec OP_1\n" * 50, "x" * 2000 + "\n", "tf echo \\\"a\\nb\\\"\n"])}]
+    if k == 6:
+        return [{"kind": "URANDOM_OPEN", "errno": 2}]
+    if k == 7:
+        return [{"kind": "URANDOM_SHORT", "after": rng.choice([0, 16])}]
+    return [{"kind": "HIST_READ", "after": rng.range(0, 5)}]
+
+
+def shuffle_opts(rng, scn):
+    """the order in which options are given must not matter"""
+    o = list(scn.get("opts", []))
+    rng.shuffle(o)
+    scn["opts"] = o
+
+
 def session_scenario(rng, purpose="rewind", allow_spend=True):
     """-> scenario without schedule"""
     fam = rng.weighted([
